@@ -49,8 +49,9 @@ def plan(ctx):
                               f"DefaultRateDecoder ({m['k']},{m['r']}) vs dedicated {m['rate']}-rate decoder: decode with {'all originals given (empty result)' if m['complete'] else 'too few shards (identical Err)'}; identical state afterwards",
                               encodes=["DefaultRateDecoder::decode (match arms)", "DecoderWork::decode_begin", "DecoderResult"],
                               bounds="concrete received set", flags=FULL, timeout=900, mem_gb=6, symbolic="shard bytes", tiers=tiers))
-    return Plan(hs,
-                assumptions=["NullEngine", "the DefaultRate methods are thin match-arm delegations, so equal Results and equal state on the exercised arms (add_original_shard / add_recovery_shard) plus equal construction state (b) carry the dedicated codecs' round behaviour (C01/C02) over to the default codec; the encode()/decode() arms themselves are NOT executed (see outside)",
+    import mir2smt
+    return Plan(hs, zqueries=["MIR_use_high_rate"], run_z=lambda c, tier: [z for z in mir2smt.run(c) if z["name"] in ("MIR_use_high_rate", "MIR_translation")],
+                assumptions=["NullEngine", "second verdict for the rule: MIR of use_high_rate -> SMT (z3 and cvc5), see C08", "the DefaultRate methods are thin match-arm delegations, so equal Results and equal state on the exercised arms (add_original_shard / add_recovery_shard) plus equal construction state (b) carry the dedicated codecs' round behaviour (C01/C02) over to the default codec; the encode()/decode() arms themselves are NOT executed (see outside)",
                              "ReedSolomonEncoder/Decoder are newtype wrappers of DefaultRate*<DefaultEngine> (one-line delegations); their supports() is decided in C08, their error paths in C10"],
                 outside=["byte-for-byte comparison of complete rounds through DefaultRate/ReedSolomon/one-shot objects: NOT decided (the codec state inside an enum payload makes CBMC lose constant propagation; one (2,1) encode round exceeded 15 min versus 18 s for the dedicated codec)",
                          "a successful reset of a DefaultRateDecoder (CBMC out of memory even for (1,2)->(1,1)): its rate choice is decided only through the rule (a), construction (b) and the encoder's reset; failing resets: C06/C07",
